@@ -5,7 +5,7 @@ from contracts import c02
 
 
 def registry():
-    reg = base_registry(('Cell', 'Context'))
+    reg = base_registry(('Cell', 'Context', 'CellTranslator'))
     uidreg = c02.registry_uid()
     reg.specfns['int_str'] = uidreg.specfns['int_str']
     from contracts.c04 import uid_str_z
@@ -26,7 +26,9 @@ def registry():
         'Context.set_cell', 'repo:context.py:Context.set_cell', {'self': 'obj:Context', 'cell': 'obj:Cell', 'code': 'str'},
         self_class='Context', fields=F, inline=['uid'], callees={'get_cell': 'Context.get_cell'},
         requires=[cellq, 'is_dict(self._cell_translations)'],
-        ensures={'registered': f'has(self._cell_translations, {U}) and get(self._cell_translations, {U}) == code',
+        ensures={'registered': f'is_dict(self._cell_translations) and has(self._cell_translations, {U}) and '
+                               f'get(self._cell_translations, {U}) == code',
+                 'every_existing_entry_kept': 'all(has(self._cell_translations, k) for k in keys(old(self._cell_translations)))',
                  'returns_reference': f'result == ref_of({U})',
                  'others_kept': f'implies(ghost_key() != Vv({U}), has(self._cell_translations, ghost_key()) == '
                                 'has(old(self._cell_translations), ghost_key()) and '
@@ -100,7 +102,7 @@ def _translator(reg, cellq, U, F):
                   'all(has(old(context._cells_in_translation), k) for k in keys(context._cells_in_translation))')
     reg.add(Contract(
         'CellTranslator._set_cell_to_context', 'repo:translators/cell_translator.py:CellTranslator._set_cell_to_context',
-        {'cell': 'obj:Cell', 'excel': 'V', 'context': 'obj:Context'}, self_class='CellTranslator',
+        {'cls': 'cls', 'cell': 'obj:Cell', 'excel': 'V', 'context': 'obj:Context'}, self_class='CellTranslator',
         fields=F, inline=['uid', 'has_handled_identifiers'], callees={'get_cell': 'Context.get_cell', 'set_cell': 'Context.set_cell'},
         requires=['allocated(cell) and is_bool(cell._handled_identifiers) and cell != context and '
                   'implies(Bv(cell._handled_identifiers), is_int(cell.title) and is_int(cell.column) and is_int(cell.row))',
@@ -113,7 +115,14 @@ def _translator(reg, cellq, U, F):
             'constant_is_repr': f'implies(not has(old(context._cell_translations), {U}) and not is_formula(cell.value), '
                                 f'get(context._cell_translations, {U}) == ite(is_none(cell.value), "self.EmptyCell()", py_repr(cell.value)))',
             'marker_restored': marks_same,
-            'handled': 'Bv(cell._handled_identifiers) and is_int(cell.title) and is_int(cell.column) and is_int(cell.row)',
+            'handled': 'is_bool(cell._handled_identifiers) and Bv(cell._handled_identifiers) and is_int(cell.title) and '
+                       'is_int(cell.column) and is_int(cell.row)',
+            'context_kept': 'is_dict(context._cell_translations) and is_dict(context._cells_in_translation)',
+            'every_existing_entry_kept': 'all(has(context._cell_translations, k) for k in keys(old(context._cell_translations)))',
+            'returns_its_arguments': 'is_tuple(result) and len(result) == 3 and result[0] == cell and result[1] == excel and '
+                                     'result[2] == context',
+            'other_cells_kept': 'unchanged_except("title", "old", cell) and unchanged_except("column", "old", cell) and '
+                                'unchanged_except("row", "old", cell) and unchanged_except("_handled_identifiers", "old", cell)',
         },
         ensures_on_raise={'existing_entries_kept': 'implies(has(old(context._cell_translations), ghost_key()), '
                                                    'has(context._cell_translations, ghost_key()))'},
@@ -124,6 +133,81 @@ def _translator(reg, cellq, U, F):
               'EmptyCell(), and the in-progress marker set is left as found; a cell that is already in progress raises the '
               'library parser exception (cycle) before descending'))
 
+    CELLPRE = ('allocated(cell) and is_bool(cell._handled_identifiers) and cell != context and '
+               'implies(Bv(cell._handled_identifiers), is_int(cell.title) and is_int(cell.column) and is_int(cell.row))')
+    reg.add(Contract(
+        'CellTranslator.translate', 'repo:translators/cell_translator.py:CellTranslator.translate',
+        {'cls': 'cls', 'cell': 'obj:Cell', 'excel': 'V', 'context': 'obj:Context'}, self_class='CellTranslator',
+        fields=F, inline=['uid', 'has_handled_identifiers'],
+        callees={'get_cell': 'Context.get_cell', '_set_cell_to_context': 'CellTranslator._set_cell_to_context'},
+        requires=[CELLPRE, 'is_dict(context._cell_translations) and is_dict(context._cells_in_translation)'],
+        ensures={
+            'reference_to_a_registered_cell': f'has(context._cell_translations, {U}) and result == ref_of({U})',
+            'existing_entries_kept': 'implies(has(old(context._cell_translations), ghost_key()), '
+                                     'has(context._cell_translations, ghost_key()) and '
+                                     'get(context._cell_translations, ghost_key()) == get(old(context._cell_translations), ghost_key()))',
+        },
+        free_exceptions=['E2PyclParserException', 'E2PyclCellException', 'Exception'],
+        modifies=['_cell_translations', '_cells_in_translation', 'title', 'column', 'row', 'value', '_handled_identifiers'],
+        notes='the text a translator receives for a referenced cell names a key of the translation map: the reference and the '
+              'generated member always come together (closure of the slice, one step)'))
+
+    def get_cells(ex, st, args, kwargs, node):
+        import z3
+        from pv import sorts as S
+        from pv.sorts import V, is_, ln, at
+        from pv.symexec import fresh
+        L = z3.Function('c03_cells_of', S.V, S.V)(ex.need_term(args[0]))     # the list excel.get_cells() returns (named for the contract)
+        i = fresh('i', S.I)
+        new_max = fresh('maxid', S.I)
+        hid = st.field('_handled_identifiers')
+        facts = [is_('List', L), ln(L) >= 0, new_max == st.maxid + ln(L),
+                 # freshly allocated Cell objects (one per position of the workbook), already filled and handled
+                 z3.ForAll([i], z3.Implies(z3.And(0 <= i, i < ln(L)), z3.And(
+                     is_('Obj', at(L, i)), V.oid(at(L, i)) == st.maxid + 1 + i,
+                     is_('Bool', z3.Select(hid, V.oid(at(L, i)))), V.bval(z3.Select(hid, V.oid(at(L, i)))),
+                     is_('Int', z3.Select(st.field('title'), V.oid(at(L, i)))), is_('Int', z3.Select(st.field('column'), V.oid(at(L, i)))),
+                     is_('Int', z3.Select(st.field('row'), V.oid(at(L, i)))))), patterns=[at(L, i)])]
+        st2 = st.add(*facts)
+        st2.maxid = new_max
+        return [(st2, L)]
+    def _cells_of(e):
+        import z3
+        from pv import sorts as S
+        from pv.symspec import to_v
+        return z3.Function('c03_cells_of', S.V, S.V)(to_v(e))
+    reg.spec('cells_of', _cells_of, None, 'the list of cells that excel.get_cells() returns')
+    reg.external('method:get_cells', get_cells,
+                 'excel.get_cells(): a list of freshly created, filled Cell objects with integer coordinates (Excel.get_cells / '
+                 'fill_cell: C02, C18)')
+    reg.add(Contract(
+        'CellTranslator.translate_file', 'repo:translators/cell_translator.py:CellTranslator.translate_file',
+        {'cls': 'cls', 'excel': 'V', 'context': 'obj:Context'}, self_class='CellTranslator',
+        fields=F, inline=['uid', 'has_handled_identifiers'], callees={'_set_cell_to_context': 'CellTranslator._set_cell_to_context'},
+        requires=['is_dict(context._cell_translations) and is_dict(context._cells_in_translation)'],
+        ensures={
+            'every_cell_registered': 'all(has(context._cell_translations, uid_str(cells_of(excel)[j].title, cells_of(excel)[j].column, '
+                                     'cells_of(excel)[j].row)) for j in range(len(cells_of(excel))))',
+            'existing_entries_kept': 'implies(has(old(context._cell_translations), ghost_key()), '
+                                     'has(context._cell_translations, ghost_key()) and '
+                                     'get(context._cell_translations, ghost_key()) == get(old(context._cell_translations), ghost_key()))',
+        },
+        invariants={0: {
+            'the_list': 'seq0 == cells_of(excel)',
+            'context_kept': 'is_dict(context._cell_translations) and is_dict(context._cells_in_translation) and allocated(context)',
+            'cells_kept': 'all(allocated(seq0[j]) and seq0[j] != context and is_bool(seq0[j]._handled_identifiers) and '
+                          'Bv(seq0[j]._handled_identifiers) and is_int(seq0[j].title) and is_int(seq0[j].column) and '
+                          'is_int(seq0[j].row) for j in range(len(seq0)))',
+            'every_cell_so_far_registered': 'all(has(context._cell_translations, uid_str(seq0[j].title, seq0[j].column, seq0[j].row)) '
+                                            'for j in range(k0))',
+            'existing_entries_kept': 'implies(has(old(context._cell_translations), ghost_key()), '
+                                     'has(context._cell_translations, ghost_key()) and '
+                                     'get(context._cell_translations, ghost_key()) == get(old(context._cell_translations), ghost_key()))'}},
+        free_exceptions=['E2PyclParserException', 'E2PyclCellException', 'Exception'],
+        modifies=['_cell_translations', '_cells_in_translation', 'title', 'column', 'row', 'value', '_handled_identifiers'],
+        notes='whole-file translation: after the loop every cell that Excel.get_cells lists has an entry in the translation map '
+              '(loop invariant every_cell_so_far_registered; the final state of the invariant is the claim), and entries that '
+              'existed before are kept'))
 
 
 def _ref(u):
